@@ -82,7 +82,7 @@ package v2
 // C12: the API refuses silences that end before or at their start, or that already ended, before touching the store.
 //@ func (*API).postSilencesHandler
 //@   props C12
-//@   nosafe
+//@   requires tracer != nil
 //@   requires api != nil
 //@   after call Tracer).Start assume res0 != nil && res1 != nil
 //@   after call PostableSilenceToProto assume (res1 == nil) ==> res0 != nil
